@@ -69,7 +69,14 @@ def obligations(tier, seed):
     probes.append(('c_i16_no', 'VF_STATIC_FACT(!au::SPEED_OF_LIGHT.can_store_value_in<int16_t>(au::meters / au::second));'))
     probes.append(('c_km_no', 'VF_STATIC_FACT(!au::SPEED_OF_LIGHT.can_store_value_in<int64_t>(au::kilo(au::meters) / au::second));'))
     probes.append(('c_km_f64', 'VF_STATIC_FACT(au::SPEED_OF_LIGHT.can_store_value_in<double>(au::kilo(au::meters) / au::second));'))
-    sel = probes if tier == 'thorough' else probes[:-9][::2] + probes[-9:]
+    # floating targets: a ratio below the smallest NORMAL value but exactly representable as a subnormal is available; the largest finite value is; one binade above is not
+    probes.append(('subnormal_f32', 'VF_STATIC_FACT(au::make_constant(au::Meters{} * au::mag<3>() * au::pow<-130>(au::mag<2>())).can_store_value_in<float>(au::meters));\n'
+                                    'VF_STATIC_FACT(au::make_constant(au::Meters{} * au::mag<3>() * au::pow<-130>(au::mag<2>())).in<float>(au::meters) == (3.0f * std::numeric_limits<float>::min()) / 16.0f);'))
+    probes.append(('subnormal_f64', 'VF_STATIC_FACT(au::make_constant(au::Meters{} * au::mag<3>() * au::pow<-1030>(au::mag<2>())).can_store_value_in<double>(au::meters));\n'
+                                    'VF_STATIC_FACT(au::make_constant(au::Meters{} * au::mag<3>() * au::pow<-1030>(au::mag<2>())).in<double>(au::meters) == (3.0 * std::numeric_limits<double>::min()) / 256.0);'))
+    probes.append(('binade_f32', 'VF_STATIC_FACT(au::make_constant(au::Meters{} * au::pow<127>(au::mag<2>())).can_store_value_in<float>(au::meters));\n'
+                                 'VF_STATIC_FACT(!au::make_constant(au::Meters{} * au::pow<128>(au::mag<2>())).can_store_value_in<float>(au::meters));'))
+    sel = probes if tier == 'thorough' else probes[:-12][::2] + probes[-12:]
     for (nm, text) in sel:
         obs.append(Ob(id='C16.static.%s' % nm, prop='C16', group='C16.static', prelude='', wrappers=[], inputs=[], body=HDR + text + '\nint main() {}\n', kind='S',
                       contract='static fact: ' + text.replace('\n', ' '), functions_under_contract=('au::Constant::can_store_value_in / as / in (compile-time)',)))
